@@ -75,7 +75,8 @@ def parseCOp (ws : List String) : Option COp :=
   | ["write", f, n] => do let f ← f.toNat?; let n ← n.toNat?; pure (.write f n)
   | ["read", f] => f.toNat?.map .read
   | ["advance", n] => n.toNat?.map .advance
-  | ["setdeadline", k, d] => do let k ← k.toNat?; let d ← parseInt d; pure (.setDeadline k d)
+  | ["setdeadline", k, "none"] => do let k ← k.toNat?; pure (.setDeadline k none)
+  | ["setdeadline", k, d] => do let k ← k.toNat?; let d ← parseInt d; pure (.setDeadline k (some d))
   | ["setinterest", k, i, m] => do
     let k ← k.toNat?; let (r, w) ← parseInterest i; let m ← parseMode m; pure (.setInterest k r w m)
   | ["dropdisp", k] => k.toNat?.map .dropDisp
@@ -101,7 +102,8 @@ def copText : COp → String
   | .ping k => s!"ping {k}" | .clonePing k => s!"cloneping {k}" | .dropPing k => s!"dropping {k}"
   | .send k v => s!"send {k} {v}" | .cloneSender k => s!"clonesender {k}" | .dropSender k => s!"dropsender {k}"
   | .write f n => s!"write {f} {n}" | .read f => s!"read {f}" | .advance n => s!"advance {n}"
-  | .setDeadline k d => s!"setdeadline {k} {d}"
+  | .setDeadline k (some d) => s!"setdeadline {k} {d}"
+  | .setDeadline k none => s!"setdeadline {k} none"
   | .setInterest k r w m => s!"setinterest {k} {interestText r w} {modeText m}"
   | .dropDisp k => s!"dropdisp {k}"
   | .idle i => s!"idle {i}" | .cancelIdle i => s!"cancelidle {i}" | .dropIdle i => s!"dropidle {i}"
